@@ -436,11 +436,5 @@ namespace
 
 int main(int argc, char** argv)
 {
-    Args a = parse_args(argc, argv);
-    if (a.property != "C14")
-    {
-        std::fprintf(stderr, "adi harness serves C14\n");
-        return 2;
-    }
-    return run_sharded(a, [&](Ctx& ctx) { run(ctx); });
+    return sse_main(argc, argv, { "C14" }, [&](Ctx& ctx) { run(ctx); });
 }
